@@ -31,6 +31,22 @@ pub fn run(args: &[String]) {
                 d.viol.clear();
             }
         }
+        Some("cards") => {
+            let scratch = crate::common::Scratch::new("exp");
+            let dir = scratch.dir();
+            let path = dir.join("m.mv2");
+            let mut m = memvid_core::Memvid::create(&path).unwrap();
+            for (i, t) in ["Alice works at Acme.", "Bob lives in Paris. Bob works at Globex.", "Carol's employer is Initech", "Dave is 42 years old and loves pizza."].iter().enumerate() {
+                let o = memvid_core::PutOptions::builder().uri(format!("mv2://c{i}")).timestamp(10 + i as i64).instant_index(i % 2 == 0).enable_embedding(i % 2 == 0).extraction_budget_ms(0).build();
+                let seq = m.put_bytes_with_options(t.as_bytes(), o).unwrap();
+                println!("put {i} -> seq {seq}, next_frame_id {}", m.next_frame_id());
+            }
+            for c in m.memories().cards() { println!("card entity={} slot={} value={} src={} uri={:?}", c.entity, c.slot, c.value, c.source_frame_id, c.source_uri); }
+            println!("enriched frames: {:?}", m.memories().enrichment_manifest().enriched_frames());
+            println!("queue len {} first {:?}", m.enrichment_queue_len(), m.next_enrichment_task());
+            m.commit().unwrap();
+            println!("after commit: queue len {} first {:?}", m.enrichment_queue_len(), m.next_enrichment_task());
+        }
         _ => println!("unknown experiment"),
     }
 }
